@@ -340,6 +340,21 @@ impl Router {
             Tracker::new(client_id.clone())
         };
 
+        // A resumed session's shared subscriptions are in force again: the client left its
+        // groups on disconnection, so it has to join them again (a group that became empty
+        // meanwhile is created anew, continuing from the request's cursor).
+        for request in tracker.data_requests.iter() {
+            if let Some(group_name) = &request.group {
+                self.shared_subscriptions
+                    .entry(group_name.to_string())
+                    .or_insert(SharedGroup::new(
+                        request.cursor,
+                        self.config.shared_subscriptions_strategy.clone(),
+                    ))
+                    .add_client(client_id.clone());
+            }
+        }
+
         let ackslog = AckLog::new();
 
         let time = match SystemTime::now().duration_since(SystemTime::UNIX_EPOCH) {
